@@ -76,7 +76,9 @@ func newBWorld(rootSpelling string) *bworld {
 		w.targets[locString(loc)] = app
 		w.put(loc, specText(app))
 	}
-	w.put([]string{"outside", "secret.sysl"}, specText("Decoy"))
+	if dl := []string{"outside", "secret.sysl"}; !within(w.root, dl) {
+		w.put(dl, specText("Decoy"))
+	}
 	return w
 }
 
